@@ -68,7 +68,7 @@ func contractMentions(fc *FuncContract, prop string) bool {
 			}
 		}
 	}
-	for _, k := range []string{"safety", "frame", "props", "cancelable", "nonblocking", "refinetags", "guarded"} {
+	for _, k := range []string{"safety", "frame", "props", "cancelable", "nonblocking", "refinetags", "guarded", "stablecapture"} {
 		if v, ok := fc.Opts[k]; ok && hasTag(optTags(v), prop) {
 			return true
 		}
